@@ -158,7 +158,9 @@ void run_C05(vh::Ctx& c) {
       }
       for (size_t q = 0; q < av.size(); q++) if (av[q] || av2[q]) { c.violation("C05:interpolated:unreachable-scale-flags-a-pair", what); break; }
       // the interpolated state itself
-      SU_vector is = p->GetIntermediateState(ir, x);
+      SU_vector is;
+      try { is = p->GetIntermediateState(ir, x); }
+      catch (std::exception& e) { c.eval(); c.violation("C05:intermediate-state:inside-rejected", what + vh::fmt(": x=%.17g threw %s", x, e.what())); continue; }
       c.eval(); c.count("query.intermediate_state");
       for (unsigned k = 0; k < d * d; k++) if (!(std::fabs(is[k] - mix[k]) <= 16 * EPS * (std::fabs(s0[k]) + std::fabs(s1[k])))) { c.violation("C05:intermediate-state:wrong-value", what + vh::fmt(": x=%.17g component %u got %.17g expected %.17g", x, k, is[k], mix[k])); break; }
       // agreement with the node-indexed form at nodes
